@@ -612,4 +612,4 @@ def out7(units, R):
                 R.ob('OUT7', fn, wnode, '%s fits the block of %s bytes' % (what, _fmt(size)), ok,
                      'writes at most %s bytes' % _fmt(need) if ok else 'may write %s bytes into %s' % (_fmt(need), _fmt(size)),
                      key='w:' + what)
-    R.floor('OUT7', 'sized string blocks in Utils', nsites, 5)
+    R.floor('OUT7', 'sized string blocks in Utils', nsites, 3)
